@@ -171,6 +171,9 @@ pub enum TMut {
     KeepFirst(u16, u8),
     /// k absent markers are appended to a list (a structure of larger arity)
     Append(u16, u8),
+    /// the last child of a list is replaced by a copy of the list itself (a structure nested inside itself,
+    /// e.g. a time choice whose value position holds another time choice)
+    NestSelf(u16),
 }
 
 pub fn tmut() -> impl Strategy<Value = TMut> {
@@ -189,6 +192,7 @@ pub fn tmut() -> impl Strategy<Value = TMut> {
         2 => (any::<u16>(), 1u8..4).prop_map(|(k, e)| TMut::Extra(k, e)),
         3 => (any::<u16>(), 0u8..9).prop_map(|(k, n)| TMut::KeepFirst(k, n)),
         2 => (any::<u16>(), 1u8..4).prop_map(|(k, n)| TMut::Append(k, n)),
+        2 => any::<u16>().prop_map(TMut::NestSelf),
     ]
 }
 
@@ -210,7 +214,7 @@ pub fn apply(nodes: &mut Vec<Node>, m: &TMut) -> &'static str {
         return "noop";
     }
     let x = match m {
-        TMut::Retype(k, _) | TMut::Resize(k, _, _) | TMut::Replace(k, _, _, _) | TMut::Drop(k) | TMut::Dup(k) | TMut::Insert(k, _) | TMut::SwapNext(k) | TMut::Wrap(k) | TMut::Unwrap(k) | TMut::SetByte(k, _) | TMut::Extra(k, _) | TMut::KeepFirst(k, _) | TMut::Append(k, _) => *k,
+        TMut::Retype(k, _) | TMut::Resize(k, _, _) | TMut::Replace(k, _, _, _) | TMut::Drop(k) | TMut::Dup(k) | TMut::Insert(k, _) | TMut::SwapNext(k) | TMut::Wrap(k) | TMut::Unwrap(k) | TMut::SetByte(k, _) | TMut::Extra(k, _) | TMut::KeepFirst(k, _) | TMut::Append(k, _) | TMut::NestSelf(k) => *k,
     };
     apply_at(nodes, pick(x, total), m)
 }
@@ -231,6 +235,7 @@ pub fn apply_at(nodes: &mut Vec<Node>, k: usize, m: &TMut) -> &'static str {
         TMut::Extra(..) => "extra-tlf-bytes",
         TMut::KeepFirst(..) => "keep-first-children",
         TMut::Append(..) => "append-children",
+        TMut::NestSelf(_) => "nest-in-itself",
     };
     let m = m.clone();
     with_kth(nodes, k, &mut |parent: &mut Vec<Node>, i: usize| match &m {
@@ -297,6 +302,15 @@ pub fn apply_at(nodes: &mut Vec<Node>, k: usize, m: &TMut) -> &'static str {
                 items.truncate(*n as usize);
             }
         }
+        TMut::NestSelf(_) => {
+            if let Node::List { items, .. } = &mut parent[i] {
+                if !items.is_empty() && items.len() <= 8 {
+                    let copy = Node::List { items: items.clone(), extra: 0 };
+                    let l = items.len();
+                    items[l - 1] = copy;
+                }
+            }
+        }
         TMut::Append(_, n) => {
             if let Node::List { items, .. } = &mut parent[i] {
                 for _ in 0..*n {
@@ -347,6 +361,7 @@ pub fn catalogue() -> Vec<TMut> {
     for n in 1..=2u8 {
         v.push(TMut::Append(0, n));
     }
+    v.push(TMut::NestSelf(0));
     v
 }
 
